@@ -270,11 +270,16 @@ impl IppAttributes {
             }
         }
 
-        // now the rest
-        for group in self
+        // now the rest: every group except the operation group written above
+        let first_operation_group = self
             .groups()
             .iter()
-            .filter(|group| group.tag() != DelimiterTag::OperationAttributes)
+            .position(|group| group.tag() == DelimiterTag::OperationAttributes);
+        for (_, group) in self
+            .groups()
+            .iter()
+            .enumerate()
+            .filter(|(idx, _)| Some(*idx) != first_operation_group)
         {
             buffer.put_u8(group.tag() as u8);
 
